@@ -11,7 +11,19 @@ import (
 func ruleC08GetOrCreate(cx *Ctx) {
 	const rule = "C08.getorcreate"
 	cx.R.Rule(rule, 1, "startCall returns an existing record with shouldLoad=false, or creates one inside the in-flight table's computation on the prev==nil path and returns shouldLoad=true exactly there")
-	r := cx.runOp(rule, opSpec{"startCall", "group", "startCall", nil, "startCall", nil})
+	roles := startCallRoles(cx)
+	if len(roles) == 0 {
+		cx.need(rule, "", "group", "startCall") // reports the vanished anchor
+		return
+	}
+	for _, role := range roles {
+		ruleC08GetOrCreateOne(cx, rule, cname(role.fn))
+	}
+	ruleC08DeleteCall(cx, rule)
+}
+
+func ruleC08GetOrCreateOne(cx *Ctx, rule, fnName string) {
+	r := cx.runOp(rule, opSpec{fnName, "group", fnName, nil, "startCall", nil})
 	if r == nil {
 		return
 	}
@@ -50,6 +62,9 @@ func ruleC08GetOrCreate(cx *Ctx) {
 		}
 	}
 	a.flush()
+}
+
+func ruleC08DeleteCall(cx *Ctx, rule string) {
 	// deleteCall removes only its own record
 	r2 := cx.runOp(rule, opSpec{"deleteCall", "group", "deleteCall", nil, "deleteCall", nil})
 	if r2 != nil {
